@@ -349,7 +349,40 @@ func gv3(w *World, r *Report) {
 				d = cl
 			}
 		}
-		r.Check(c != nil && d != nil && instrDominates(c, d), "Gv-3", "DoVote:cancel-then-vote", "the voter's earlier vote is cancelled before the new one is counted (latest vote wins, each voter counted once)", "a re-vote does not cancel the earlier vote first (a voter could be counted twice)", fnSite(w, dv))
+		if c == nil && d == nil {
+			// both steps in a helper of the proposal that DoVote hands the voter and the
+			// choice to: the helper's parameters are read as DoVote's arguments
+			for _, hc := range CallsIn(dv) {
+				g := hc.Common().StaticCallee()
+				if g == nil || !w.InModule(g) || g.Blocks == nil || len(g.Params) != len(hc.Common().Args) || g.Name() == "cancelVote" || g.Name() == "doVote" {
+					continue
+				}
+				up := func(v ssa.Value) ssa.Value {
+					if pi := paramIndexIn(g, v); pi >= 0 {
+						return hc.Common().Args[pi]
+					}
+					return v
+				}
+				var ic, id ssa.CallInstruction
+				for _, cl := range CallsIn(g) {
+					rcv, args := callRecvArgs(cl.Common())
+					if rcv == nil || paramIndexIn(g, rcv) != 0 || w.Canon(hc.Common().Args[0]) != "recv" {
+						continue
+					}
+					switch {
+					case callName(cl.Common()) == "cancelVote" && len(args) == 1 && isVoter(up(args[0])):
+						ic = cl
+					case callName(cl.Common()) == "doVote" && len(args) == 2 && isVoter(up(args[0])) && w.Canon(up(args[1])) == "p1":
+						id = cl
+					}
+				}
+				if ic != nil && id != nil && instrDominates(ic, id) {
+					// the helper's call is on every path of DoVote that votes: it stands for both
+					c, d = hc, hc
+				}
+			}
+		}
+		r.Check(c != nil && d != nil && (c == d || instrDominates(c, d)), "Gv-3", "DoVote:cancel-then-vote", "the voter's earlier vote is cancelled before the new one is counted (latest vote wins, each voter counted once)", "a re-vote does not cancel the earlier vote first (a voter could be counted twice)", fnSite(w, dv))
 	}
 	cv := needFn(r, "Gv-3", w, fref{pkgProp, "GovProposal", "cancelVote"})
 	if cv != nil {
